@@ -342,6 +342,117 @@ func runC06(args []string) int {
 			}
 		}
 	}
+	// ---- extra sources: lookup tables (stateful blueprint) and hand-built systems restored from bytes
+	solveOne := func(t Target, ccs interface{}, w witness.Witness, flat []*big.Int, desc solverCaseDesc, expectOK int, expectedW []*big.Int) {
+		d := DumpSystem(ccs)
+		obs := SolveCapture(ccs, w, 1)
+		desc.Class = obs.Class
+		rep.Eval(fmt.Sprintf("%s|%s|%v", t, desc.Prog, flat), true)
+		rep.Count("solve:" + obs.Class)
+		rep.Count("source:" + desc.Kind)
+		rep.Sample(desc)
+		if obs.Class == "panic" {
+			rep.Fail("solver-panic:"+obs.Msg, "Solve panicked", desc)
+		}
+		if obs.Class == "ok" {
+			if s := CheckSolution(d, flat, obs); s != "" {
+				rep.Fail("solver-ok-unsat:"+t.String(), "Solve succeeded but "+s, desc)
+			}
+			if expectedW != nil {
+				for i := range expectedW {
+					if i < len(obs.W) && obs.W[i].Cmp(expectedW[i]) != 0 {
+						rep.Fail("solver-wrong-wire:"+t.String(), fmt.Sprintf("wire %d: solver assigned %s, the unique satisfying value is %s", i, obs.W[i], expectedW[i]), desc)
+						break
+					}
+				}
+			}
+			if expectOK == 0 {
+				rep.Fail("solver-accepts-unsat:"+t.String()+":"+desc.Kind, "Solve succeeded on an assignment that violates the circuit", desc)
+			}
+		} else if obs.Class != "panic" && expectOK == 1 {
+			rep.Fail("solver-fails-on-satisfiable:"+t.String()+":"+desc.Kind+":"+obs.Class, "Solve failed ("+obs.Msg+") although a satisfying extension exists", desc)
+		}
+		for _, nt := range tasksList {
+			o2 := SolveCapture(ccs, w, nt)
+			if obs.Class == "ok" || o2.Class == "ok" {
+				if s := obsEqual(obs, o2); s != "" {
+					rep.Fail("solver-schedule-dependent", fmt.Sprintf("nbTasks=%d differs from nbTasks=1 in %s", nt, s), desc)
+				}
+			}
+		}
+		if !d.HasOther && len(coqCases[t.Name]) < maxCoq[t.Name]+120 && len(d.Instrs) <= maxInstr[t.Name]*2 {
+			coqCases[t.Name] = append(coqCases[t.Name], coqSolverCase(d, flat, obs))
+			caseIdx[t.Name] = append(caseIdx[t.Name], desc)
+		}
+	}
+	bi := func(x int64) *big.Int { return big.NewInt(x) }
+	for mode := 0; mode < 3; mode++ {
+		for _, t := range targets {
+			if t.Name == "tiny" {
+				continue // the log-derivative argument needs MiMC, which is only offered on the curve fields
+			}
+			ccs, cerr := compileTarget(t, &lookupCircuit{mode: mode})
+			if cerr != "" {
+				rep.Fail("harness:lookup-compile", cerr, t.String())
+				continue
+			}
+			table := []int64{3, 7, 7, 5, 20}
+			for _, q := range [][3]int64{{0, 4, 1}, {2, 3, 1}, {1, 1, 1}, {1, 4, 0}, {0, 7, -1}, {1, 3, 1}} {
+				i0, i1, ok := q[0], q[1], q[2]
+				r0, r1 := int64(0), int64(0)
+				if i0 < 5 {
+					r0 = table[i0]
+				}
+				if i1 < 5 {
+					r1 = table[i1]
+				}
+				if ok == 0 {
+					r1++
+				}
+				a := &lookupCircuit{A: 3, B: 4, C: 5, I0: i0, I1: i1, R0: r0, R1: r1}
+				w, err := frontend.NewWitness(a, t.Field)
+				if err != nil {
+					continue
+				}
+				flat := []*big.Int{bi(r0), bi(r1), bi(3), bi(4), bi(5), bi(i0), bi(i1)}
+				expect := int(ok)
+				if ok == -1 {
+					expect = 0
+				}
+				solveOne(t, ccs, w, flat, solverCaseDesc{Target: t.String(), Prog: fmt.Sprintf("lookup table mode %d", mode), Inputs: bigStrs(flat), Kind: "lookup"}, expect, nil)
+			}
+		}
+	}
+	nhand := 24
+	if o.Thorough() {
+		nhand = 400
+	}
+	for hi := 0; hi < nhand; hi++ {
+		t := targets[hi%len(targets)]
+		hb := genHandBuilt(rng, t)
+		srcs := []struct {
+			name string
+			ccs  interface{}
+		}{{"hand-built", hb.ccs}}
+		if dec, err := restoreFromBytes(t, hb.ccs); err == nil {
+			srcs = append(srcs, struct {
+				name string
+				ccs  interface{}
+			}{"restored-from-bytes", dec})
+		} else {
+			rep.Fail("c06:restore-error", err.Error(), hb.desc)
+		}
+		for _, src := range srcs {
+			w := witnessFromValues(t.Field, hb.nbPub, hb.wit)
+			solveOne(t, src.ccs, w, hb.wit, solverCaseDesc{Target: t.String(), Prog: hb.desc, Inputs: bigStrs(hb.wit), Kind: src.name}, 1, hb.expected)
+			// a perturbed witness: whatever the verdict, a success must come with a satisfying solution
+			bad := append([]*big.Int{}, hb.wit...)
+			k := rng.Intn(len(bad))
+			bad[k] = new(big.Int).Add(bad[k], big.NewInt(1))
+			bad[k].Mod(bad[k], t.Field)
+			solveOne(t, src.ccs, witnessFromValues(t.Field, hb.nbPub, bad), bad, solverCaseDesc{Target: t.String(), Prog: hb.desc, Inputs: bigStrs(bad), Kind: src.name + "+perturbed"}, -1, nil)
+		}
+	}
 	// write cases
 	var sb strings.Builder
 	sb.WriteString("From Coq Require Import ZArith List Bool.\nFrom GnarkV Require Import Base.Res Base.Zp CS.Solver CS.SolverZp.\nImport ListNotations.\n")
